@@ -667,3 +667,42 @@ mutant("c15-private-slots-skipped", "C15", "R15.a", SOP,
         )""",
        "        return all(getattr(self, n) == getattr(value, n) for n in self.__slots__ if not n.startswith('_'))",
        "seeded C15-s2: machine assignment lives in a private slot")
+
+# ------------------------------------------------------------------ C02
+GIF = "job_shop_lib/visualization/_gantt_chart_video_and_gif_creation.py"
+mutant("c02-random-tiebreak", "C02", "R02.a", DISP,
+       "        return max(\n            self._machine_next_available_time[machine_id],\n            self._job_next_available_time[operation.job_id],\n        )",
+       "        import random\n        return max(\n            self._machine_next_available_time[machine_id],\n            self._job_next_available_time[operation.job_id],\n        ) + random.randint(0, 0)")
+mutant("c02-min", "C02", "R02.e", DISP,
+       "        return max(\n            self._machine_next_available_time[machine_id],\n            self._job_next_available_time[operation.job_id],\n        )",
+       "        return min(\n            self._machine_next_available_time[machine_id],\n            self._job_next_available_time[operation.job_id],\n        )")
+mutant("c02-wrong-vector", "C02", "R02.e", DISP,
+       "            self._job_next_available_time[operation.job_id],\n        )\n\n    def _update_tracking_attributes(",
+       "            self._job_next_available_time[operation.position_in_job],\n        )\n\n    def _update_tracking_attributes(")
+mutant("c02-skip-zero-duration", "C02", "R02.d", DISP,
+       "        self._machine_next_available_time[machine_id] = end_time\n        self._job_next_operation_index[job_id] += 1\n        self._job_next_available_time[job_id] = end_time\n",
+       "        if end_time > scheduled_operation.start_time:\n            self._machine_next_available_time[machine_id] = end_time\n            self._job_next_available_time[job_id] = end_time\n        self._job_next_operation_index[job_id] += 1\n",
+       "seeded C01-s2: zero-duration operations leave the clocks stale")
+mutant("c02-machine-of-operation", "C02", "R02.d", DISP,
+       "        machine_id = scheduled_operation.machine_id\n        end_time = scheduled_operation.end_time",
+       "        machine_id = scheduled_operation.operation.machines[0]\n        end_time = scheduled_operation.end_time",
+       "flexible operation advances its first machine's clock, not the chosen one")
+mutant("c02-start-not-end", "C02", "R02.d", DISP,
+       "        self._job_next_available_time[job_id] = end_time\n        self._cache = {}",
+       "        self._job_next_available_time[job_id] = scheduled_operation.start_time\n        self._cache = {}")
+mutant("c02-replay-default-machine", "C02", "R02.c", GIF,
+       "        dispatcher.dispatch(\n            scheduled_operation.operation, scheduled_operation.machine_id\n        )",
+       "        dispatcher.dispatch(scheduled_operation.operation)")
+mutant("c02-replay-sorted", "C02", "R02.c", GIF,
+       "    for i, scheduled_operation in enumerate(schedule_history, start=1):",
+       "    for i, scheduled_operation in enumerate(sorted(schedule_history, key=lambda s: s.start_time), start=1):",
+       "ties in start time reorder the replay")
+mutant("c02-ctor-other-machine", "C02", "R02.e", DISP,
+       "        start_time = self.start_time(operation, machine_id)\n",
+       "        start_time = self.start_time(operation, operation.machines[0])\n")
+refactor("c02-r-locals", "C02", DISP,
+         "        return max(\n            self._machine_next_available_time[machine_id],\n            self._job_next_available_time[operation.job_id],\n        )",
+         "        machine_free = self._machine_next_available_time[machine_id]\n        job_free = self._job_next_available_time[operation.job_id]\n        return max(job_free, machine_free)")
+refactor("c02-r-inline-tracking", "C02", DISP,
+         "        job_id = scheduled_operation.job_id\n        machine_id = scheduled_operation.machine_id\n        end_time = scheduled_operation.end_time\n\n        self._machine_next_available_time[machine_id] = end_time\n        self._job_next_operation_index[job_id] += 1\n        self._job_next_available_time[job_id] = end_time\n",
+         "        self._machine_next_available_time[scheduled_operation.machine_id] = scheduled_operation.end_time\n        self._job_next_operation_index[scheduled_operation.job_id] += 1\n        self._job_next_available_time[scheduled_operation.job_id] = scheduled_operation.end_time\n")
